@@ -5,7 +5,10 @@ intervals; the resulting classification flag must be definitely false below one,
 at one and definitely false above one.  A wrong classification sends n != 1 through the closed
 form for n = 1, so the returned erosion does not satisfy the discrete equation, and it defeats the
 rejection of n != 1 on multiple-direction graphs (C12).
-The residual of the discrete equation and Newton convergence are numerical: NOT decided.
+C13-N1 (A5, interval domain): the exit test of the Newton-Raphson loop is evaluated with the
+residual far below -tolerance, within the tolerance and far above it: it may stop the iteration
+only in the middle case (a one-sided test accepts the overshoot of the first step when n < 1).
+The size of the residual reached and the number of iterations are numerical: NOT decided.
 """
 from ..interp import Interp, World, Interval, Obj, Sym, ThrowEx, explore, NOT_HANDLED
 from ..sir import pp, strip, walk, AnalysisBroken
@@ -76,6 +79,37 @@ def writers_of(db, unit, cls, fields):
     return out
 
 
+def convergence_tests(fn):
+    """(loop, if-stmt, condition) of every `break` guarded by a comparison with m_tolerance"""
+    out = []
+    for loop in walk(fn.body):
+        if loop.get("k") not in ("while", "do", "for"):
+            continue
+        for n in walk(loop.get("body")):
+            if n.get("k") == "if" and "m_tolerance" in pp(n["c"]) and \
+                    any(x.get("k") == "break" for x in walk(n.get("then"))):
+                if not any(n is o[1] for o in out):
+                    out.append((loop, n, n["c"]))
+    return out
+
+
+def eval_guard(fn, cond, residual):
+    """evaluate the exit condition with every local variable it mentions bound to `residual`"""
+    from ..interp import Frame, Cell
+    outs = set()
+
+    def run(dec):
+        it = Interp(World(), dec)
+        fr = Frame(fn, Obj(SPL, {"m_tolerance": 1e-3}))
+        for n in walk(cond):
+            if n.get("k") == "ref" and n.get("rk") in ("local", "param") and n.get("d") is not None:
+                fr.vars[n["d"]] = Cell(residual, n["n"])
+        return it, it.truth(it.eval(cond, fr), cond)
+    for made, res in explore(run):
+        outs.add(bool(res))
+    return outs
+
+
 def run(db, chk):
     chk.explanation = (
         "Abstract interpretation (interval domain, exhaustive over the listed exponent intervals) "
@@ -86,6 +120,8 @@ def run(db, chk):
                        "convergence of the Newton-Raphson iteration"]
     chk.rule("C13-L1", "the linear-case flag computed by set_slope_exp is true exactly for n = 1 "
              "(evaluated on intervals below, at and above one)", min_instances=len(SCENARIOS))
+    chk.rule("C13-N1", "the Newton-Raphson iteration of the non-linear case stops on a two-sided "
+             "test of the residual against the tolerance (|residual| <= tolerance)", min_instances=1)
     chk.rule("C13-L2", "the flag and the stored exponent are written only by set_slope_exp (so "
              "the classification cannot go stale)", min_instances=2)
     fns = db.fns(SPL + "::set_slope_exp")
@@ -108,4 +144,27 @@ def run(db, chk):
             ok = ws <= {"set_slope_exp"} and bool(ws)
             chk.ob("C13-L2", "%s written by %s" % (f, sorted(ws)), ok, where=fn.ploc,
                    function=fn.bn, construct="writers(%s)" % f, extra={"unit": fn.unit.name})
+    # ---- N1: the Newton iteration may only stop on a two-sided test of the residual
+    for fn in db.fns(SPL + "::erode"):
+        tests = convergence_tests(fn)
+        if not tests:
+            raise AnalysisBroken("C13-N1: no tolerance-guarded exit found in spl_eroder::erode (%s)" % fn.unit.name)
+        for loop, stmt, cond in tests:
+            variables = {n["n"] for n in walk(cond) if n.get("k") == "ref" and n.get("rk") in ("local", "param")}
+            if len(variables) != 1:
+                raise AnalysisBroken("C13-N1: exit test %s mentions %d local variables" % (pp(cond), len(variables)))
+            res = {}
+            for label, iv in (("residual << -tolerance", Interval(-1e300, -1.0)),
+                              ("|residual| < tolerance", Interval(-4e-4, 4e-4)),
+                              ("residual >> tolerance", Interval(1.0, 1e300))):
+                res[label] = eval_guard(fn, cond, iv)
+                n_sc += 1
+            ok = res["residual << -tolerance"] == {False} and res["|residual| < tolerance"] == {True} \
+                and res["residual >> tolerance"] == {False}
+            chk.ob("C13-N1", "[%s] Newton exit test `%s`: stops for %s" % (
+                fn.unit.name, pp(cond), {k: sorted(v) for k, v in res.items()}), ok, where=fn.loc(stmt),
+                function=fn.bn, construct="newton-exit(%s)" % sorted(variables)[0],
+                detail="" if ok else "the iteration stops as soon as the residual is below +tolerance: for a "
+                "concave equation (slope exponent < 1) the first Newton step overshoots to a large "
+                "NEGATIVE residual and is accepted as converged", extra={"unit": fn.unit.name})
     chk.count_scenarios(n_sc, True)
